@@ -25,6 +25,8 @@ mod c14;
 mod c07;
 mod alloc;
 mod c18;
+mod resolve;
+mod c06;
 
 use engine::{Env, Tier};
 
@@ -130,6 +132,7 @@ fn main() {
         "C14" => c14::run(&env, &rest),
         "C07" => c07::run(&env),
         "C18" => c18::run(&env),
+        "C06" => c06::run(&env),
         _ => usage(),
     };
     std::process::exit(code);
